@@ -36,12 +36,17 @@ def triple(r):
 _FRESH = {}          # references computed in fresh interpreter processes (vlib/fresh.py), consulted first
 
 
-def reference(kind, n, cache):
-    key = (kind, n)
+def _app(cfg):
+    # 'custom': an errors_map a user configured (error objects with texts that need escaping, shared by all requests of the application)
+    return S.make_app(config={'errors_map': S.custom_errors()}) if cfg == 'custom' else S.make_app(private_errors=True)
+
+
+def reference(kind, n, cache, cfg=None):
+    key = (kind, n) if not cfg else (kind, n, cfg)
     if key in _FRESH:
         return _FRESH[key]
     if key not in cache:
-        app = S.make_app(private_errors=True)
+        app = _app(cfg)
         r = call_app(app, S.make_env(kind, n))
         if r.escaped is not None:
             raise CheckFailure(f'reference request {key} on a fresh application raised {fmt_exc(r.escaped)}')
@@ -52,10 +57,13 @@ def reference(kind, n, cache):
 def check_history(ctx, case):
     hist = [tuple(x) for x in case['history']]
     cache = {}
-    refs = [reference(k, n, cache) for k, n in hist]         # phase 1: fresh applications
+    cfg = case.get('cfg')
+    refs = [reference(k, n, cache, cfg) for k, n in hist]         # phase 1: fresh applications
     # phase 2: the application under test, created last; its error objects are its own (shared by all of ITS requests, which is the
     # mechanism under test) so that a case never depends on what earlier cases did to the process-wide DefaultConfig.errors_map
-    app = S.make_app(private_errors=True)
+    app = _app(cfg)
+    if cfg:
+        ctx.count('history_on_application_with_configured_errors_map')
     prev = None
     for i, ((kind, n), ref) in enumerate(zip(hist, refs)):
         r = call_app(app, S.make_env(kind, n))
@@ -157,7 +165,11 @@ def check_retention(ctx, case):
     census(ctx, case['kinds'], case['n1'], case['n2'], case['retention'])
 
 
-HIST = st.lists(st.tuples(st.sampled_from(S.KINDS), st.integers(0, 40)), min_size=2, max_size=30).map(lambda h: {'history': [list(x) for x in h]})
+ERR_BODY_KINDS = ('badchunk', 'oversized', 'badmultipart', 'badjson', 'bigform', 'prepared_error', 'neg_cl')          # kinds answered through a mapped / prepared error object
+
+
+HIST = st.tuples(st.lists(st.tuples(st.sampled_from(S.KINDS_SEQ), st.integers(0, 40)), min_size=2, max_size=30), st.sampled_from([None, None, 'custom'])).map(
+    lambda t: {'history': [list(x) for x in t[0]], 'cfg': t[1]})
 
 
 def run(ctx):
@@ -165,9 +177,9 @@ def run(ctx):
         ctx.guarded(check_retention if 'retention' in case else check_history, case)
         ctx.count('corpus')
     # exhaustive: every ordered pair of kinds (and x-error-y triples in thorough)
-    pairs = list(itertools.product(S.KINDS, repeat=2))
+    pairs = list(itertools.product(S.KINDS_SEQ, repeat=2))
     from vlib import fresh
-    got = fresh.references([(k, n, 'default', False) for k in S.KINDS for n in (1, 2, 3, 4, 5, 6, 7)])
+    got = fresh.references([(k, n, 'default', False) for k in S.KINDS_SEQ for n in (1, 2, 3, 4, 5, 6, 7)])
     for (k, n, _, _), v in got.items():
         if v[0] == 'escaped':
             raise CheckFailure(f'reference request {k, n} raised {v[1]}')
@@ -176,6 +188,8 @@ def run(ctx):
     for a, b in pairs[ctx.shard::max(1, ctx.nshards)]:
         ctx.guarded(check_history, {'history': [[a, 1], [b, 2]]})
         ctx.guarded(check_history, {'history': [[a, 3], [b, 3], [a, 4]]})
+        if a in ERR_BODY_KINDS or b in ERR_BODY_KINDS:
+            ctx.guarded(check_history, {'history': [[a, 3], [b, 3], [a, 4], [b, 5], [a, 5]], 'cfg': 'custom'})
     ctx.count('exhaustive_ordered_pairs', len(pairs))
     if ctx.tier == 'thorough':
         trip = [(a, e, b) for a in S.KINDS for e in ERROR_KINDS for b in S.KINDS]
@@ -187,7 +201,7 @@ def run(ctx):
     # retention
     if ctx.shard == 0:
         n1, n2 = (160, 400) if ctx.tier == 'quick' else (300, 2000)
-        for kind in S.KINDS:
+        for kind in S.KINDS_SEQ:
             ctx.guarded(check_retention, {'retention': kind, 'kinds': [kind], 'n1': n1, 'n2': n2})
         # (mixed traffic fills the bounded caches of the standard library more slowly: the first measuring point lies later)
         ctx.guarded(check_retention, {'retention': 'mixed', 'kinds': list(S.KINDS), 'n1': max(n1, 20 * len(S.KINDS)), 'n2': max(n1, 20 * len(S.KINDS)) + (n2 - n1)})
